@@ -10,10 +10,11 @@ import (
 )
 
 // Value is one of:
-//   bool, int64 (every integer type; unsigned stored as bit pattern), float64
-//   (float32 values are kept rounded), string, *Rope (string with symbolic
-//   parts), *Term (symbolic scalar), Ptr, *Struct, *Array, Slice, *Map, Iface,
-//   *Closure, *ssa.Builtin, Tuple, *mapIter, *strIter, Host, nil (nil func).
+//
+//	bool, int64 (every integer type; unsigned stored as bit pattern), float64
+//	(float32 values are kept rounded), string, *Rope (string with symbolic
+//	parts), *Term (symbolic scalar), Ptr, *Struct, *Array, Slice, *Map, Iface,
+//	*Closure, *ssa.Builtin, Tuple, *mapIter, *strIter, Host, nil (nil func).
 type Value interface{}
 
 type Cell struct {
@@ -80,7 +81,7 @@ func (p *GoPanic) String() string {
 }
 
 // signals that end a path (not Go panics of the program under test)
-type pathEnd struct{ why string }     // normal early end (assume false, infeasible)
+type pathEnd struct{ why string }      // normal early end (assume false, infeasible)
 type pathAbort struct{ reason string } // inconclusive: unsupported / fuel / undecided
 
 type undoRec struct {
